@@ -10,6 +10,7 @@
 package c04
 
 import (
+	"bytes"
 	"fmt"
 	"image"
 	"runtime"
@@ -101,6 +102,30 @@ func hashCall(which string, img image.Image) (string, []any) {
 		}
 	}()
 	return d, keep
+}
+
+// stalePatterns: what the pooled bufio readers (imagemeta, jpeg, isobmff) are left holding after a "stale-readers" step:
+// 8 KiB of one repeated fragment that a look-ahead reaching past its window would mistake for structure.
+var stalePatterns = [][]byte{
+	[]byte("\x00\x00\x00\x06Exif\x00\x00II*\x00\x08\x00\x00\x00"), []byte("MM\x00*\x00\x00\x00\x08\x00\x01\x01\x0f\x00\x02\x00\x00\x00\x04abc\x00"), []byte("\xff\xe1\x00\x20Exif\x00\x00II*\x00\x08\x00\x00\x00"),
+	[]byte("\x00\x00\x00\x10uuid\x85\xc0\xb6\x87\x82\x0f\x11\xe0"), []byte("\x00\x00\x00\x18CMT1II*\x00\x08\x00\x00\x00\x00\x00\x00\x00\x00\x00\x00\x00"), []byte("+13:59\x002024:02:29 23:59:59\x00"),
+}
+
+func staleReaders(s Step) {
+	pat := stalePatterns[int(s.Fill)%len(stalePatterns)]
+	junk := bytes.Repeat(pat, 8192/len(pat)+1)
+	n := s.N
+	if n < 1 {
+		n = 1
+	}
+	for i := 0; i < n; i++ {
+		for _, m := range [][]byte{[]byte("\xff\xd8"), []byte("\x00\x00\x00\x18ftypcrx \x00\x00\x00\x01crx isom"), []byte("\x00\x00\x00\x18ftypheic\x00\x00\x00\x00mif1heic"), []byte("\x89PNG\r\n\x1a\n"), nil} {
+			in := append(append([]byte{}, m...), junk...)
+			for _, e := range []string{"Decode", "ScanJPEG", "BMFF", "ItScan"} {
+				worker.Exec(worker.Req{Entry: e, Input: in})
+			}
+		}
+	}
 }
 
 func poison(s Step) {
@@ -198,6 +223,8 @@ func eval(c Case) (f *pbt.Fail) {
 			runtime.GC()
 		case "poison":
 			poison(s)
+		case "stale-readers":
+			staleReaders(s)
 		case "decode":
 			if s.In >= len(c.Inputs) {
 				continue
@@ -249,6 +276,8 @@ func describe(steps []Step) string {
 			s = append(s, fmt.Sprintf("%s(#%d)", st.Entry, st.In))
 		case "hash":
 			s = append(s, fmt.Sprintf("%s(img#%d)", st.Hash, st.Img))
+		case "stale-readers":
+			s = append(s, fmt.Sprintf("stale-readers(pattern %d x%d)", int(st.Fill)%len(stalePatterns), st.N))
 		case "poison":
 			s = append(s, fmt.Sprintf("poison(fill %#x, %d tags, len %d, pos %d)", st.Fill, len(st.Tags), st.Len, st.Pos))
 		default:
@@ -425,7 +454,11 @@ func genCase(rt *rapid.T) Case {
 			}
 			c.Steps = append(c.Steps, st)
 		default:
-			c.Steps = append(c.Steps, Step{Op: "gc"})
+			if rapid.Bool().Draw(rt, "stale?") {
+				c.Steps = append(c.Steps, Step{Op: "stale-readers", Fill: byte(rapid.IntRange(0, len(stalePatterns)-1).Draw(rt, "pattern")), N: rapid.IntRange(1, 3).Draw(rt, "sn")})
+			} else {
+				c.Steps = append(c.Steps, Step{Op: "gc"})
+			}
 		}
 	}
 	return c
@@ -467,7 +500,7 @@ func init() { pbt.Register(chk) }
 func TestProp(t *testing.T) {
 	defer rec.MustWrite()
 	rec.Rule("histories of 4-30 steps over one process: decode(entry, input) with every entry point over a per-history pool of 3-8 inputs (well-formed files of every container, truncated and hostile-edited ones, TIFFs whose out-of-line fields are given counts that fit the 4-byte slot, TIFFs whose zone-offset strings are respelled: +00:00 / -00:00 / same-hour variants, tiny directories with an empty or one-entry pending list cut at the next-IFD pointer, blocks that end inside an out-of-line value), " +
-		"hash(image, function) over right- and wrong-size images, poison (verification hook: the Exif buffer pool is refilled with buffers whose scratch area, 84-entry tag array, len and pos are hostile; the pixel pools with other data), gc. " +
+		"hash(image, function) over right- and wrong-size images, poison (verification hook: the Exif buffer pool is refilled with buffers whose scratch area, 84-entry tag array, len and pos are hostile; the pixel pools with other data), stale-readers (the pooled bufio readers of imagemeta, jpeg and isobmff are left holding 8 KiB of a repeated structure-like fragment: Exif item prefix, TIFF header + entry, APP1 header, uuid / CMT1 box header, zone and date strings), gc. " +
 		"oracle: (i) every call's digest (value, error, panic) equals the digest of the same call on pristine state (fresh pools, empty zone cache), computed once per (entry, input); (ii) every returned value is kept and re-digested after each later step: it must not change. " +
 		"non-trivial = the history ran at least one decode on a pooled buffer (no new buffer allocated) and has >= 2 decodes with a poison step or >= 2 distinct inputs; distinct by history")
 	rec.Assume("single goroutine; sync.Pool hand-out is therefore deterministic enough for the hook's allocation counter to tell whether a pooled buffer was reused")
